@@ -67,7 +67,7 @@ for c, rc_ in CLEAN.items():
     if rc_ != 0:
         print('check %s exits %d on the unchanged tree: not used' % (c, rc_), flush=True)
 bad = 0
-with ThreadPoolExecutor(max_workers=4) as ex:
+with ThreadPoolExecutor(max_workers=int(os.environ.get("RESEED_WORKERS", "4"))) as ex:
     for sid, status, info in ex.map(one, ids):
         print('%-8s %-15s %s' % (sid, status, info), flush=True)
         bad += status != 'ok'
